@@ -635,6 +635,88 @@ example : SimS (id : Nat → Nat) (DataStoreSqlite.run id (Sql.create .a) [.writ
   ⟨run_simS _ _ _ (simS_create .a) (by decide), by decide⟩
 
 
+/-! ## `validate()` -/
+
+/-- **`validate()` reports what the dictionary predicts (partial).**  Under the hypotheses of
+`store_refines_dict_partial`, after ANY history: no member has an incorrect md5; the members whose md5 is missing are
+exactly the listed completed records of the ghost list `lostRun` (shared md5 side file deleted by the retiring write);
+every other member counts as correct; `Has log` is true iff the dictionary holds a log record. -/
+theorem validate_matches_dict_partial [DecidableEq D] (cfg : Cfg) (H : D → D) (sfx : Str) (ids : List Str) (mode : Mode)
+    (ops : List (Op D)) (hy : hyg sfx ids = true)
+    (hs : safeHist sfx ids (Dict.empty mode) ops = true) :
+    let s := populate (run cfg H (Dir.create mode sfx) ops)
+    let d := specRun .directory sfx (Dict.empty mode) ops
+    let lost := lostRun sfx (Dict.empty mode) [] ops
+    let v := validateDir H s
+    v.incorrect = 0 ∧
+    v.missing = (s.cCache.filter (· ∈ lost)).length ∧
+    v.correct + v.missing = s.cCache.length + s.ncCache.length ∧
+    v.hasLog = !d.logs.isEmpty := by
+  intro s d lost v
+  obtain ⟨_, hc, _, hn, hroot, hnc, hlogs, hmn, hmc⟩ := store_refines_dict_partial cfg H sfx ids mode ops hy hs
+  -- every listed member has its dictionary value and the md5 the theorem states
+  have hcm : ∀ n ∈ s.cCache, ∃ x, get s.root n = some x ∧
+      get s.md5 (md5Lookup s.sfx n) = if n ∈ lost then none else some (H x) := by
+    intro n hn'
+    have := (hc n).1 hn'
+    rw [mem_keys_iff] at this
+    obtain ⟨x, hx⟩ := Option.isSome_iff_exists.1 this
+    exact ⟨x, (hroot n).trans hx, hmc n x hx⟩
+  have hnm : ∀ n ∈ s.ncCache, ∃ x, get s.nc n = some x ∧ get s.md5 (md5Lookup s.sfx n) = some (H x) := by
+    intro n hn'
+    have := (hn n).1 hn'
+    rw [mem_keys_iff] at this
+    obtain ⟨x, hx⟩ := Option.isSome_iff_exists.1 this
+    exact ⟨x, (hnc n).trans hx, hmn n x hx⟩
+  have hbadc : (obsCompleted s).countP (badMd5 H) = 0 := by
+    rw [List.countP_eq_zero]
+    intro m hm
+    simp only [obsCompleted, List.mem_map] at hm
+    obtain ⟨n, hn', rfl⟩ := hm
+    obtain ⟨x, h1, h2⟩ := hcm n hn'
+    by_cases hl : n ∈ lost <;> simp [badMd5, h1, h2, hl]
+  have hbadn : (obsNotCompleted s).countP (badMd5 H) = 0 := by
+    rw [List.countP_eq_zero]
+    intro m hm
+    simp only [obsNotCompleted, List.mem_map] at hm
+    obtain ⟨n, hn', rfl⟩ := hm
+    obtain ⟨x, h1, h2⟩ := hnm n hn'
+    simp [badMd5, h1, h2]
+  have hmisn : (obsNotCompleted s).countP (fun m => m.md5.isNone) = 0 := by
+    rw [List.countP_eq_zero]
+    intro m hm
+    simp only [obsNotCompleted, List.mem_map] at hm
+    obtain ⟨n, hn', rfl⟩ := hm
+    obtain ⟨x, h1, h2⟩ := hnm n hn'
+    simp [h2]
+  have hmisc : (obsCompleted s).countP (fun m => m.md5.isNone) = (s.cCache.filter (· ∈ lost)).length := by
+    rw [obsCompleted, List.countP_map, List.countP_eq_length_filter]
+    have : s.cCache.filter ((fun m : MObs D => m.md5.isNone) ∘ fun n => ⟨n, get s.root n, get s.md5 (md5Lookup s.sfx n)⟩) =
+        s.cCache.filter (· ∈ lost) := by
+      apply List.filter_congr
+      intro n hn'
+      obtain ⟨x, h1, h2⟩ := hcm n hn'
+      by_cases hl : n ∈ lost <;> simp [h2, hl]
+    rw [this]
+  have hmle : (obsCompleted s ++ obsNotCompleted s).countP (fun m => m.md5.isNone) ≤ (obsCompleted s ++ obsNotCompleted s).length :=
+    List.countP_le_length
+  have hb : v.incorrect = 0 := by
+    simp only [v, validateDir, List.countP_append, hbadc, hbadn] at *
+    omega
+  have hm : v.missing = (s.cCache.filter (· ∈ lost)).length := by
+    simp only [v, validateDir, List.countP_append, hmisc, hmisn, Nat.add_zero]
+  refine ⟨hb, hm, ?_, ?_⟩
+  · have hle : (s.cCache.filter (· ∈ lost)).length ≤ s.cCache.length := List.length_filter_le _ _
+    simp only [v, validateDir, List.countP_append, hbadc, hbadn, hmisc, hmisn, List.length_append, obsCompleted, obsNotCompleted, List.length_map] at *
+    omega
+  · exact congrArg (fun l => !l.isEmpty) hlogs
+
+/-- the counts on a concrete history with one `lost` record (append mode, `a` retires its not-completed record) -/
+example : validateDir (id : Nat → Nat) (populate (run Cfg.asIs id (Dir.create .a fasta)
+      [.writeNc idA 1, .write idA 2, .writeNc idBA 3, .write idAfasta 4, .writeLog ['r','u','n'] 5])) = ⟨1, 0, 1, true⟩ := by decide
+example : validateDir (id : Nat → Nat) (populate (run Cfg.asIs id (Dir.create .w ['f','a','.','g','z'])
+      [.write idA 2, .writeNc idBA 3])) = ⟨2, 0, 0, false⟩ := by decide
+
 /-! ## The naming layer, TRANSLATED from the current source
 
 `Gen/C13Names.lean` is regenerated on every run by `translator/c13_names2lean.py` from `app/data_store.py`
